@@ -654,8 +654,13 @@ class Hugr(Mapping[Node, NodeData], Generic[OpVarCov]):
         """
         mapping: dict[Node, Node] = {}
 
-        for node, node_data in hugr.nodes():
-            # relies on parents being inserted before any children
+        # visit every node after its parent: once nodes were deleted and their
+        # indices reused, index order is not hierarchy order any more
+        pending = [hugr.root]
+        while pending:
+            node = pending.pop(0)
+            node_data = hugr[node]
+            pending.extend(node_data.children)
             try:
                 node_parent = mapping[node_data.parent] if node_data.parent else parent
             except KeyError as e:
